@@ -1,5 +1,5 @@
-"""Gen_Sinks.v — every logging call, `raise` and `__repr__/__str__` of the anchored scrapli files with the
-identifiers that flow into its message (fail-closed).
+"""Gen_Sinks.v — every logging call, `raise` and `__repr__/__str__` of EVERY module of the scrapli package (the
+anchored files are flagged as such) with the identifiers that flow into its message (fail-closed).
 
 Identifier-level value flow, computed from the `ast` of the CURRENT source tree:
   * flows(expr): names / attribute names / `v[i]` pseudo-identifiers whose VALUE can end up in the
@@ -12,6 +12,11 @@ Identifier-level value flow, computed from the `ast` of the CURRENT source tree:
     keywords by name, positionals by position) — so `channel_input` inside `BaseChannel.write` stands for
     `auth_password` at the login call sites, `interact_events` inside `send_inputs_interact` for the tuples
     built in `_escalate`, and so on;
+  * closed under attribute stores: an identifier loaded as an attribute (`self.channel_input`,
+    `response.channel_input`) also stands for every value stored under that attribute name (`self.X = v`: in the
+    class family when the receiver is self/cls, package-wide otherwise) — so `channel_input` inside
+    `Response.__repr__` / `raise_for_status` stands for the constructor argument of `Response(...)`, i.e. the
+    command of `_pre_send_command` and the joined inputs of `_pre_send_interactive` (hidden ones included);
   * guards: a flow that only happens when a boolean identifier G is FALSE carries the guard G
     (`if G: ... else: <sink>`, `x if not G else "REDACTED"`).  Crossing a call edge the guard is resolved
     against the call site: constant True -> the flow is dead (dropped); constant False / defaulted to False ->
@@ -53,6 +58,16 @@ ON_PATH = [
     "scrapli/transport/base/sync_transport.py",
     "scrapli/transport/base/async_transport.py",
 ]
+# modules outside the anchors that see a secret after the operation (the Response objects hold the channel input:
+# for send_interactive the join of all event inputs) or on the way to the drivers (factory): they MUST be present;
+# every other module of the package is scanned as well (generate() walks the whole package)
+OBSERVERS = [
+    "scrapli/response.py",
+    "scrapli/factory.py",
+    "scrapli/helper.py",
+    "scrapli/transport/plugins/system/ptyprocess.py",
+    "scrapli/transport/base/base_socket.py",
+]
 LOG_METHODS = {"debug", "info", "warning", "warn", "error", "critical", "exception", "log"}
 SANITIZERS = {"bool", "len", "type", "isinstance", "issubclass", "id", "hash", "callable", "hasattr", "any", "all"}
 # methods whose result carries the receiver's value
@@ -85,6 +100,14 @@ class Func:
         self.calls = []      # (Call node, ctx_guards)
         self.sinks = []      # (kind, node, [exprs], ctx_guards)
         self.tuple_guard = {}  # var -> (guard var)  : var[0] is guarded by guard var (co-indexed element 2)
+        self.self_loads = set()   # attribute names loaded from self / cls
+        self.other_loads = set()  # attribute names loaded from any other receiver
+        for n in ast.walk(node):
+            if isinstance(n, ast.Attribute) and isinstance(n.ctx, ast.Load):
+                if isinstance(n.value, ast.Name) and n.value.id in ("self", "cls"):
+                    self.self_loads.add(n.attr)
+                else:
+                    self.other_loads.add(n.attr)
         self.qual = "%s%s" % (cls + "." if cls else "", self.name)
 
 
@@ -396,6 +419,13 @@ class Analysis:
                 g = self.elem_guard(f, p)
                 if g:
                     self.elem_guards.add(g)
+        # attribute stores, package-wide:  attr -> [(function, value expression)]
+        self.attr_stores = {}
+        for f in self.funcs:
+            for t, vals in f.assign.items():
+                if t.startswith("."):
+                    for (val, _ctx) in vals:
+                        self.attr_stores.setdefault(t[1:], []).append((f, val))
         # call sites per callee function
         self.sites = {}
         for f in self.funcs:
@@ -461,7 +491,14 @@ class Analysis:
             out.add((ident, gs))
             base = ident.split("[")[0]
             idx = int(ident[len(base) + 1:-1]) if "[" in ident else None
-            for (val, _ctx) in f.assign.get(base, []):
+            stores = [(f, val) for (val, _ctx) in f.assign.get(base, [])]
+            # attribute loads: the values stored under that attribute name
+            if base in f.self_loads or base in f.other_loads:
+                fam = self.family.get(f.cls, {f.cls}) if f.cls else set()
+                for (g, val) in self.attr_stores.get(base, []):
+                    if base in f.other_loads or g.cls in fam:
+                        stores.append((g, val))
+            for (sf, val) in stores:
                 if idx is not None and isinstance(val, (ast.Tuple, ast.List)) and idx < len(val.elts) \
                         and not all(isinstance(t, ast.Tuple) for t in val.elts):
                     fl = flows(val.elts[idx])
@@ -478,7 +515,7 @@ class Analysis:
                 else:
                     fl = flows(val)
                 for (j, g2) in fl:
-                    todo.append((f, j, gs | g2))
+                    todo.append((sf, j, gs | g2))
             if base in f.params:
                 for (caller, call, _cg) in self.sites.get(id(f), []):
                     arg = self.bound(f, call, base)
@@ -567,14 +604,12 @@ def generate(outdir, repo=None):
         from harness import common
         repo = common.REPO
     an = Analysis(repo)
-    for rel in ANCHORED + ON_PATH:
+    for rel in ANCHORED + ON_PATH + OBSERVERS:
         if rel not in an.files:
             raise ValueError("gen_sinks: anchored file missing: %s" % rel)
     rows = []
     counts = {"log": 0, "raise": 0, "repr": 0}
     for fn in an.funcs:
-        if fn.file not in ANCHORED and fn.file not in ON_PATH:
-            continue
         for (kind, node, exprs, ctxg) in fn.sinks:
             fl = set()
             for e in exprs:
